@@ -370,6 +370,9 @@ Inductive op :=
 | OScale (ss : list nat)
     (* a scalar rescale that touches the site tensors ss; these calls do not take the
        record, which is left as it is *)
+| ONormalizeSite (i : nat)
+    (* Tensor.normalize[_] on the site tensor: T.modify(data=T.data / T.norm(), left_inds=T.left_inds) -
+       the data is rescaled but the flag is passed on *)
 | OSetRecord (r : rcd).
     (* the user starts a fresh record: info = {} / info["cur_orthog"] = None / "calc" *)
 
@@ -387,6 +390,10 @@ Definition step (o : op) (calc : nat * nat) (st : mps) : option mps :=
   | ODroppedCopy dec w1 w2 => canonicalize_dropped_copy w1 w2 calc (if dec then decorated st else st)
   | OLocalExpMany ws ip => local_exp_many ws ip calc st
   | OScale ss => bind (scale_sites ss (sites st)) (fun l => Some (mkM l (rec st)))
+  | ONormalizeSite i =>
+      if i <? length (sites st)
+      then Some (mkM (setS (sites st) i (mkS false false (fl (get (sites st) i)))) (rec st))
+      else None
   | OSetRecord r => Some (mkM (sites st) r)
   end.
 
